@@ -11,21 +11,11 @@ TRUSTED_BASE = [
     'not modelled: encoding_rs, cssparser/selectors, memchr, hashbrown, allocator, threads, FFI',
 ]
 
-def kv(line):
-    d = {}
-    for t in line.split(' '):
-        if '=' in t:
-            k, v = t.split('=', 1); d[k] = v
-    return d
-def ops_of(line):
-    o = kv(line).get('ops', 'E')
-    return [('E', b'') if x == 'E' else ('W', bytes.fromhex(x[1:])) for x in o.split(',') if x]
-def input_bytes(line):
-    return b''.join(d for k, d in ops_of(line) if k == 'W')
-def flag(d, k): return d.get(k, '0') == '1'
+from props_util import *
+from oracles import *
 
 # ------------------------------------------------------------------------------------------------
-def oracle_c12(line, case, stats, allc=None):
+def oracle_c12(line, case, stats, allc=None, lines=None):
     """sink protocol + fail-stop, checked on the implementation's own log"""
     errs = []
     ops = ops_of(line); calls = case['calls']
@@ -59,25 +49,16 @@ def oracle_c12(line, case, stats, allc=None):
             failed_at = k; stats['errors'] = stats.get('errors', 0) + 1
     return errs
 
-def oracle_c01(line, case, stats, allc=None):
-    errs = []
-    d = kv(line)
-    if any(k in d for k in ('fail', 'remove', 'endt', 'mem')): return errs   # not a pure observer / failure configuration
-    stats['observer_cases'] = stats.get('observer_cases', 0) + 1
-    data = input_bytes(line).hex()
-    res = obslog.p_results(case)
-    out = ''.join(obslog.sink_bytes(c['sink']) for c in case['calls'])
-    if all(r == 'ok' for r in res):
-        if out != data: errs.append('output differs from input: in=%s out=%s' % (data[:200], out[:200]))
-        stats['identity_checked'] = stats.get('identity_checked', 0) + 1
-    elif 'err:amb' in res and flag(d, 'strict'):
-        stats['ambiguity'] = stats.get('ambiguity', 0) + 1
-        if not data.startswith(out): errs.append('output after ParsingAmbiguity is not a prefix of the input')
-    else:
-        errs.append('unexpected results %s for an observer configuration' % res)
-    return errs
-
+C10_TEXT = ('Theorem C10_limit_after_successful_writes: for every configuration of the level-2 model (selectors, handlers, failure injection), every limit M that '
+            'admits the preallocation and every sequence of successful writes, accounted usage (parsing buffer + open-element stack) <= M and retained not-yet-emitted '
+            'input <= M; one-step invariant C10_write_keeps_limit; the stack is charged before it grows. The failing call returns MemoryLimitExceeded in the model by construction. '
+            'Partial: monotonicity in M and determinism are checked by the correspondence run / sweep oracle only. Known finding PreallocAboveLimit (witness lemma in props/C10.v).')
 PROPS = {
+    'C10': dict(coq=['props/C10.vo'], families=[('mem', 1500, 30000), ('l2fail', 600, 10000)], projections=['results', 'usage', 'out_bytes'], oracle=oracle_c10, classify=classify_c10,
+        technique='Coq proof: success-path invariant theorem (OkPath) instantiated with the limiter invariant + arena lemmas; extraction-based correspondence incl. accounted usage (hook)',
+        level_text=C10_TEXT,
+        level_note='Trusted: Coq kernel, translator (LimitedVec constants), hand model of Arena/LimitedVec/SharedMemoryLimiter accounting (Vec::try_reserve_exact assumed exact), '
+                   'size_of::<StackItem> measured through the limiter hook at run time and passed to the model; correspondence on results, usage after every write and output.'),
     #'C01': dict(coq=['props/C01.vo'], families=[('l1', 1500, 40000)], projections=['out_bytes'], oracle=oracle_c01),
     'C12': dict(coq=['props/C12.vo'], families=[('l1', 1500, 40000), ('l1fail', 600, 10000)], projections=['sink_protocol'], oracle=oracle_c12,
         technique='Coq proof: generic frame theorem over the executable model + invariant over call histories; extraction-based correspondence run',
